@@ -82,18 +82,17 @@ def catalog():
     b = p.bits("In8")
     b.scalar("x", 0, 3)
     b.scalar("y", 3, 5, st="Int")
-    o = p.bits("Out32")
+    o = p.bits("Out24")         # (containers stay <= 24 bits: TLC's integers are 32-bit)
     o.scalar("a", 0, 5)
     o.sub("inner", 8, 8, "In8")
-    o.array("nib", 16, 12, ("UInt",), 4)
-    o.scalar("top", 28, 4, st="Bcd")
+    o.array("nib", 16, 8, ("UInt",), 4)
     q = p.bits("Out16")
     q.sub("deep", 3, 8, "In8")
     q.scalar("fl", 15, 1, st="Flag")
     s = p.struct("Hold")
     s.scalar("pre", 0, 1)
-    s.sub("w", 1, 4, "Out32", order="BE")
-    s.sub("h", 5, 2, "Out16")
+    s.sub("w", 1, 3, "Out24", order="BE")
+    s.sub("h", 4, 2, "Out16")
     s.virt("vy", Op("+", R("w", "inner", "y"), R("h", "deep", "x")))
     ps.append(p)
 
